@@ -329,6 +329,12 @@ var coverage = []struct {
 	{`SELECT ?s, ?x FROM ?a WHERE { ?s "p"@[] ?o . ?x "q"@[] ?o };`, []string{"?a"}},              // per row: Subjects
 	{`SELECT ?s, ?x FROM ?a WHERE { ?s "p"@[] ?o . OPTIONAL { ?o "q"@[] ?x } };`, []string{"?a"}}, // optional, per row
 	{`SELECT ?s, ?p2 FROM ?a WHERE { ?s "p"@[] ?o . ?o ?p2 /t<c> };`, []string{"?a"}},             // per row: PredicatesForSubjectAndObject
+	// a fully specified clause AFTER a clause that bound something = a condition on the rows found so far (simpleExist):
+	// plain, with an alias, as OPTIONAL, and one that does not hold
+	{`SELECT ?o FROM ?a WHERE { /u<a> "p"@[] ?o . /u<a> "p"@[] /u<b> };`, []string{"?a"}},
+	{`SELECT ?o, ?x FROM ?a WHERE { /u<a> "p"@[] ?o . /u<a> "p"@[] /u<b> AS ?x };`, []string{"?a"}},
+	{`SELECT ?o FROM ?a WHERE { /u<a> "p"@[] ?o . OPTIONAL { /u<a> "p"@[] /u<b> } };`, []string{"?a"}},
+	{`SELECT ?o FROM ?a, ?b WHERE { /u<a> "p"@[] ?o . /u<b> "q"@[] /u<a> };`, []string{"?a", "?b"}},
 }
 
 const coverageData = `INSERT DATA INTO ?a { /u<a> "p"@[] /u<b> . /u<a> "p"@[] /t<c> . /u<b> "p"@[] /u<b> . /t<c> "p"@[] /u<b> . /u<b> "q"@[] /t<c> . /t<c> "q"@[] /u<b> . /u<a> "q"@[] /u<b> };`
